@@ -150,15 +150,20 @@ Proof.
   (* LinkADRAns *) injection H as <-. destruct chack, drack, pwack; vm_compute; reflexivity.
 Qed.
 
-Lemma enc_eq_spec_DutyCycleReq maxdc bs :
+(* the kind-level description (layout, or the whole-octet legacy value 255): all 256 values *)
+Lemma sweep_DutyCycleReq :
+  forallb (fun m => match enc (PDutyCycleReq m) with
+                    | Ok bs => bytes_eqb bs (spec_encode_k KDutyCycleReq [m])
+                    | _ => true end) (range 256) = true.
+Proof. vm_compute. reflexivity. Qed.
+
+Lemma enc_eq_spec_k_DutyCycleReq maxdc bs :
   wf_go (PDutyCycleReq maxdc) = true -> enc (PDutyCycleReq maxdc) = Ok bs ->
-  bs = spec_encode (layout_of (kind_of (PDutyCycleReq maxdc))) (fields_of (PDutyCycleReq maxdc)).
+  bs = spec_encode_k KDutyCycleReq [maxdc].
 Proof.
-  intros Hwf H. cbn [wf_go] in Hwf; split_wf; cbn [enc] in H;
-    unfold spec_encode; cbn [kind_of layout_of fields_of];
-    change (byte_size _) with 1%nat || change (byte_size _) with 2%nat || change (byte_size _) with 3%nat
-    || change (byte_size _) with 4%nat || change (byte_size _) with 5%nat.
-  (* DutyCycleReq *) case_checks H. injection H as <-. cbn [le_bytes pack]. pows. list_eq; lia.
+  intros Hwf H. cbn [wf_go] in Hwf. unfold u8 in Hwf. apply N.ltb_lt in Hwf.
+  pose proof (sweep1 256 _ sweep_DutyCycleReq maxdc Hwf) as S. cbv beta in S. rewrite H in S.
+  now apply bytes_eqb_eq.
 Qed.
 
 Lemma bytes_RXParamSetupReq f optneg rx2dr rx1off : rx2dr < 16 -> rx1off < 8 -> f < 16777216 ->
@@ -505,13 +510,14 @@ Qed.
 
 Theorem enc_eq_spec v bs :
   wf_go v = true -> kind_of v <> KProprietary -> enc v = Ok bs ->
-  bs = spec_encode (layout_of (kind_of v)) (fields_of v).
+  bs = spec_encode_k (kind_of v) (fields_of v).
 Proof.
-  intros Hwf Hk H. destruct v; cbn [kind_of] in Hk; try congruence; clear Hk.
+  intros Hwf Hk H. destruct v; cbn [kind_of] in Hk; try congruence; clear Hk;
+    try (rewrite spec_encode_k_plain by reflexivity).
   - now apply enc_eq_spec_LinkCheckAns.
   - now apply enc_eq_spec_LinkADRReq.
   - now apply enc_eq_spec_LinkADRAns.
-  - now apply enc_eq_spec_DutyCycleReq.
+  - now apply enc_eq_spec_k_DutyCycleReq.
   - now apply enc_eq_spec_RXParamSetupReq.
   - now apply enc_eq_spec_RXParamSetupAns.
   - now apply enc_eq_spec_DevStatusAns.
@@ -588,12 +594,15 @@ Proof.
   do 16 (destruct m as [|? m]; [discriminate H|]). destruct m; [reflexivity|discriminate H].
 Qed.
 
+(* kinds read through their layout alone (DutyCycleReq with its whole-octet value 255 is
+   swept separately: roundtrip_DutyCycleReq in StreamProofs.v) *)
 Lemma accepted_fields v bs :
-  wf_go v = true -> kind_of v <> KProprietary -> enc v = Ok bs -> newch_ambiguous v = false ->
+  wf_go v = true -> kind_of v <> KProprietary -> legacy_octets (kind_of v) = [] ->
+  enc v = Ok bs -> newch_ambiguous v = false ->
   in_widths (layout_of (kind_of v)) (fields_of v) = true /\
   value_of (kind_of v) (fields_of v) = wire_resolution v.
 Proof.
-  intros Hwf Hk H Ha. destruct v; cbn [wf_go] in Hwf; split_wf; cbn [enc] in H;
+  intros Hwf Hk Hl H Ha. destruct v; cbn [wf_go] in Hwf; split_wf; cbn [enc] in H;
     cbn [kind_of layout_of fields_of in_widths value_of g nth wire_resolution newch_ambiguous] in *; pows.
   - split; [lia|reflexivity].
   - case_checks H. unfold enc_redundancy in H. case_checks H.
@@ -601,7 +610,7 @@ Proof.
     match goal with L : (length chmask =? 16)%nat = true |- _ => apply PeanoNat.Nat.eqb_eq in L; rewrite L in Hm end.
     split; [pows; lia|]. f_equal. now apply mask_of_val.
   - split; [destruct chack, drack, pwack; reflexivity|destruct chack, drack, pwack; reflexivity].
-  - split; [lia|reflexivity].
+  - discriminate Hl.
   - case_checks H. unfold enc_dlsettings in H. case_checks H.
     split; [destruct optneg; cbn [b2f]; lia|]. f_equal; [lia|destruct optneg; reflexivity].
   - split; [destruct chack, rx2ack, rx1ack; reflexivity|destruct chack, rx2ack, rx1ack; reflexivity].
